@@ -9,6 +9,8 @@ CONSTANTS
   WM = 12
   ConstructSlots <- Only1
   Unbounded = FALSE
+  Canon = FALSE
+  LinK = 0
   ViewIds <- NoViews
   Ops <- ConvOps
 INVARIANTS TypeOK Refines NoAlias NoUseAfterFree NoDoubleFree NoLeak ConfigKept RoundTrip
